@@ -558,7 +558,7 @@ func main() {
 		}
 		r.Finish(evid.Coverage{})
 	}
-	deadline := time.Now().Add(chainkit.Budget(r.Pick(100, 1500)))
+	deadline := time.Now().Add(chainkit.Budget(r.Pick(85, 1500)))
 	pool, err := chainkit.StartPool(par.Workers())
 	if err != nil {
 		evid.Fatalf("C30: %v", err)
